@@ -41,6 +41,8 @@ CONFIG_MACROS = {
     'XALAN_HAVE__ISNAN': False,
     '__cplusplus': True,
     '_MSC_VER': False,
+    'XALAN_VQ_SPECIAL_TRACE': False,
+    'XALAN_QUANTIFY': False,
     'XALAN_DEVELOPMENT': False,
     'XALAN_NODESORTER_CACHE_XOBJECTS': False,   # never defined in the tree
     'XALAN_XPATH_EXPRESSION_USE_ITERATORS': True,   # #define'd unconditionally in XPathExpression.hpp
